@@ -17,6 +17,9 @@ import RdfModel.Driver.Xsd
 import RdfModel.Driver.IRI
 import RdfModel.Driver.JsonLd
 import RdfModel.Driver.RdfXml
+import RdfModel.Driver.Pipe
+import RdfModel.Driver.Html
+import RdfModel.Driver.Latch
 open RdfModel
 
 def dispatch (line : String) : String :=
@@ -40,6 +43,9 @@ def dispatch (line : String) : String :=
         else if comp = "nqo" then Driver.NQO.handle op args
         else if comp = "iri" then Driver.IRI.handle op args
         else if comp = "rx" then Driver.RdfXml.handle op args
+        else if comp = "pipe" then Driver.Pipe.handle op args
+        else if comp = "html" then Driver.Html.handle op args
+        else if comp = "latch" then Driver.Latch.handle op args
         else none
       r.getD "bad-op"
     | _ => "bad-op"
